@@ -292,7 +292,9 @@ def finish(ctx, level="proof"):
         if seen > 5:
             break
         path = VERIF / "replays" / ("%s-%s-seed%d-%d.json" % (ctx.prop, ctx.tier, ctx.seed, seen))
-        path.write_text(json.dumps({"property": ctx.prop, "what": what, "replay": replay,
+        path.write_text(json.dumps({"property": ctx.prop, "tier": ctx.tier, "seed": ctx.seed, "what": what, "replay": replay,
+                                    "how_to_replay": "./check %s --replay <this file>  (re-runs the check with this tier and seed: the same cases "
+                                                     "are regenerated; 'replay' below is the failing case itself)" % ctx.prop,
                                     "broken_proofs": ctx.proof_broken, "broken_correspondence": ctx.tie_broken[:20]},
                                    indent=1, default=str))
         print("VIOLATION property=%s replay=%s%s" % (ctx.prop, path, " no-failing-input-found" if no_input else ""),
